@@ -94,7 +94,9 @@ func ParsePost(data []byte) (*Post, error) {
 // and for version 2 Index and Strings).
 func BuildPost(p *Post) []byte {
 	out := make([]byte, 32)
-	put32 := func(o int, v uint32) { out[o], out[o+1], out[o+2], out[o+3] = byte(v>>24), byte(v>>16), byte(v>>8), byte(v) }
+	put32 := func(o int, v uint32) {
+		out[o], out[o+1], out[o+2], out[o+3] = byte(v>>24), byte(v>>16), byte(v>>8), byte(v)
+	}
 	put32(0, p.Version)
 	put32(4, uint32(p.ItalicAngle))
 	out[8], out[9] = byte(uint16(p.UnderlinePosition)>>8), byte(p.UnderlinePosition)
